@@ -190,7 +190,11 @@ def cases(draw):
     tree = dict(draw(specgen.trees(features=FEATURES)))
     tree.pop("_excluded", None)
     k = 10 if specgen._TIER[0] == "thorough" else 4
-    return {"tree": tree, "firsts": draw(st.lists(st.integers(0, 10 ** 6), min_size=k, max_size=k, unique=True))}
+    import hashlib
+    raw = draw(st.lists(st.integers(0, 10 ** 6), min_size=k, max_size=k, unique=True))
+    dig = hashlib.blake2b(json.dumps([raw, tree], sort_keys=True, default=str).encode(), digest_size=4 * k).digest()
+    # (spread with a digest of the tree: Hypothesis favours a few values for such side inputs)
+    return {"tree": tree, "firsts": [int.from_bytes(dig[4 * i:4 * i + 4], "big") % (10 ** 6) for i in range(k)]}
 
 
 def run_task(task):
